@@ -29,6 +29,11 @@ STRENGTHENED = {
     "C16d": "MISSED by the first run (history at the old width, widening resize, pending-wrap cursor at the new edge, scrolled-back view, then an emitter): added exactly that scenario to the resize family",
     "C18d": "MISSED by the first run (unknown colour-space selector after 48 followed by more parameters): SGR lists and the table family got `38/48;sel;tail` forms; the report carries no-failing-input-found in the C18 check when only the pen differs (that clause is C09's) and is attributed when the event log differs",
     "C15d": "manifests as a failure of the property only at 65535 columns (outside the modelled domain, MAXDIM = 65520); the emitted bytes differ at every size, so the correspondence reports it with no-failing-input-found",
+    "C05e": "MISSED by the first run (overflow of col + width only on screens >= 65534 columns wide, outside the modelled domain MAXDIM = 65520 and too slow for the executable model): the oracle got built-in far-edge cases (1x65535, 2x65535, 2x65534, 65535x1) and a replay/no-panic runner for C05-C08",
+    "C10e": "MISSED by the first run (DECRST with a sub-parameter on a recognised mode number): the table family enumerates sub-parameter forms of every recognised mode, idiom 81 decorates mode lists with sub-parameters",
+    "C18e": "MISSED by the first run (OSC selector that is numerically 0/1/2 but not the literal digit): the table family and idiom 74 got zero-padded / signed / spaced selectors",
+    "C03e": "caught by the cost oracle (ICH 65535 takes 1.8 s); the oracle now stops a file after three measured stalls so that the check itself finishes in minutes",
+    "C04e": "2 disagreements: flush() on a scrolled-back view is exercised by the W operation (twin parser) only when a scrolled view precedes it",
     "C18b": "caught by the oracle's token table only: added idiom 83 (ESC with intermediates and every kind of final byte)",
 }
 res = {}
@@ -46,7 +51,7 @@ out.append("## 12. Seeded changes: which check catches which change\n")
 out.append("Each row is one change written by an independent worker who saw only the property text and a scratch\n"
            "worktree (never `/verif`); each compiles, passes the unedited 67-test suite + doctest, and breaks the property\n"
            "on a concrete input (the worker's demonstration test, re-run by us with and without the change). The\n"
-           "changes live in `seeded/<id>/` (`patch.diff`, `seeded_demo.rs`, `meta.json`; suffix b = second round, c/d = third and fourth round, whose workers were told what the earlier changes were and asked for a different function and mechanism; the fourth round was also asked for changes that alter behaviour on as few inputs as possible) and are never committed to `/repo`.\n"
+           "changes live in `seeded/<id>/` (`patch.diff`, `seeded_demo.rs`, `meta.json`; suffix b = second round, c/d/e = third to fifth round, whose workers were told what the earlier changes were and asked for a different function and mechanism; the fourth round was also asked for changes that alter behaviour on as few inputs as possible) and are never committed to `/repo`.\n"
            "`tools/run_seeded.sh` applies one, runs `./check <property> --tier quick` (seed 1), undoes it. Columns:\n"
            "*dis* = cases where model and implementation differ, *orc* = cases where the implementation-level oracle\n"
            "fails; *mechanism* = what the first reported replay rests on (`correspondence+oracle(k)`: the states/bytes\n"
